@@ -23,3 +23,6 @@ def run(ck):
                       "path in float32/float64/complex64/complex128; the dtype of every block, vector and numpy scalar of every "
                       "result is compared with the operands' (real counterpart for singular values)")
     ck.conform(progs)
+    if ck.tier != "quick":
+        ck.suite_trace(intfill=False)
+        ck.suite_trace(intfill=True, limit=48)
